@@ -134,6 +134,8 @@ func ParseEvents(data string) []Event {
 					ev.OK = kv[3:] == "true"
 				}
 			}
+		case "B":
+			ev.ID, _ = strconv.Atoi(f[1])
 		case "E", "M":
 			ev.ID, _ = strconv.Atoi(f[1])
 			if len(f) >= 5 {
